@@ -45,18 +45,47 @@ def run(ctx, F):
     ctx.floor("C28.commit-on-ok", len(fns), 5, "alloc_pages implementations and helpers of the three page resources")
     summarised = {last_seg(q) for q in fns}
     nret = 0
+    def commits_on_success(h):
+        """A private helper that commits exactly when it hands a grant back (Some / Ok) - e.g. a factored-out fast path."""
+        cm = live_calls(h, name="commit_pages")
+        rows = ret_table(h)
+        succ = 0
+        for b, t, g in rows:
+            st = strip(t)
+            v = st[1][2] if st and st[0] == "agg" and st[1][0] == "adt" else None
+            if v is None and st and st[0] == "call" and last_seg(st[2] or st[1]) == "from_residual":
+                v = "None"  # the early exit of `?`
+            d = [c for c in cm if h.cfg.dominates(c.bb, b)]
+            r = [c for c in cm if b in (h.cfg.reachable_from(c.bb) | {c.bb})]
+            if v in ("Some", "Ok"):
+                succ += 1
+                if not (len(d) == 1 and r == d):
+                    return False
+            elif v in ("None", "Err"):
+                if r:
+                    return False
+            else:
+                return False
+        return succ >= 1 and bool(cm)
+
     for q, f in sorted(fns.items()):
         commits = live_calls(f, name="commit_pages")
+        prefix = re.sub(r"^<([\w:]+).*$", r"\1", q) if q.startswith("<") else q.rsplit("::", 1)[0]
+        helpers = [c for c in live_calls(f) if c.q and c.q in F.fns and c.q not in fns and c.q.startswith(prefix + "::") and F.fns[c.q].blocks and commits_on_success(F.fns[c.q])]
         for b, t, g in ret_table(f):
             kind, extra = classify(t)
             dom = [c for c in commits if f.cfg.dominates(c.bb, b)]
             reach = [c for c in commits if b in (f.cfg.reachable_from(c.bb) | {c.bb})]
+            # a committing helper counts where its success is what brought us here
+            gs = [(show(p.tree), p.val) for p in guards(f, b)]
+            hdom = [c for c in helpers if any(s.startswith(short(c.q) + "(") and v in ("Some", "Ok") for s, v in gs)]
+            hbad = [c for c in helpers if b in (f.cfg.reachable_from(c.bb) | {c.bb}) and c not in hdom and not any(s.startswith(short(c.q) + "(") and v in ("None", "Err") for s, v in gs)]
             nret += 1
             if kind == "Ok":
-                ok = len(dom) == 1 and reach == dom
+                ok = len(dom) + len(hdom) == 1 and reach == dom and not hbad
                 exp = "exactly one commit_pages on every path to this Ok"
             elif kind == "Err":
-                ok = not reach
+                ok = not reach and not hdom and not hbad
                 exp = "no commit_pages before returning Err"
             elif kind == "delegate":
                 ok = not reach and (extra in summarised or extra == "allocate_one_chunk_no_commit")
